@@ -43,6 +43,8 @@ import XdslModel.X86Rules
 import XdslModel.SSADom
 import XdslModel.DCEMini
 import XdslModel.RegAllocLoop
+import XdslModel.DeclGeneric
+import XdslModel.Verbatim
 /-!
 Model registry for the driver: `MODEL <name>` selects a `(state, lineStep)` pair.
 A continuation-passing encoding is used because the state types differ.
@@ -101,6 +103,8 @@ def run? (name : String) : Option Runner :=
   | "ssa_dom" => some fun k => k SSADom.lineStep ()
   | "dcemini" => some fun k => k DCEM.lineStep {}
   | "regalloc_loop" => some fun k => k RegAllocLoop.lineStep ()
+  | "decl_generic" => some fun k => k DeclGeneric.lineStep {}
+  | "verbatim" => some fun k => k Verbatim.lineStep ()
   | _ => none
 
 end Xdsl.Registry
